@@ -194,7 +194,14 @@ func genC18(tier string, r *rng) {
 			emitJ(enc([]byte("{"+string(kb)+":"+v+"}"), 1) + "." + enc([]byte("{}"), 1) + "." + enc([]byte("sig"), 1))
 		}
 	}
-	for _, a := range algs {
+	// every registered algorithm name and its neighbours: extended (ES256K of RFC 8812, HS256/128), prefixed, truncated,
+	// other letter case — an unregistered name is shown as it stands, never as the registered name it resembles
+	algAll := append([]string{}, algs...)
+	for _, a := range algs[:12] {
+		algAll = append(algAll, a+"K", a+"/128", a+"-x", a+"0", "x"+a, " "+a, a+" ", a[:4], a[:3], strings.ToLower(a), a[:2]+"3840", a[:2]+a[2:]+a[2:])
+	}
+	algAll = append(algAll, "ES256K", "EdDSA ", "Ed25519", "RSA-OAEP", "A128KW", "dir", "HS", "256", "none ", "NONE")
+	for _, a := range algAll {
 		ab, _ := json.Marshal(a)
 		emitJ(enc([]byte("{\"alg\":"+string(ab)+"}"), 1) + "." + enc([]byte("{\"sub\":\"x\"}"), 1) + "." + enc(r.bytes(32), 1))
 	}
